@@ -84,6 +84,7 @@ def _rand_case(rng, big):
     n = rng.choice([1, 2, 3, 4, 5, 6, 7, 10, 16]) if not big else rng.choice([60, 300])
     iv = rng.choice([1, 7, 1000, 10 ** 6, 10 ** 9])
     nk = rng.choice([2, 4, 6])
+    zero = rng.random() < 0.25      # mix in the keys that hold a zero value
     sub = rng.random() < 0.15
     bad = rng.random() < 0.25
     calls = []
@@ -92,6 +93,8 @@ def _rand_case(rng, big):
     for _ in range(nops):
         r = rng.random()
         key = rng.choice(KEYS[:nk])
+        if zero and rng.random() < 0.4:
+            key = rng.choice(ZERO)
         if bad and rng.random() < 0.06:
             kind = rng.choice(["set", "move", "remove"])
             c = {"op": kind, "key": None if rng.random() < 0.5 else key, "val": rng.randrange(100),
@@ -377,6 +380,39 @@ def _two_wheels(rng):
     return {"kind": "wheel", "interval": iv, "slots": n, "wheels": 2, "calls": calls}
 
 
+ZERO = ["k70", "k71", "k72", "k73", "k74"]     # driver aliases: int 0, "", false, a zero struct, 0.0
+
+
+def _zero_keys_fixed():
+    """keys holding the zero value of their type are keys like any other: set, move, remove, re-set, drain"""
+    iv, n = 1000, 3
+    calls = []
+    for i, k in enumerate(ZERO):
+        calls.append({"op": "set", "key": k, "val": 10 + i, "delay": (2 + i) * iv})
+    calls += [{"op": "move", "key": "k70", "delay": 5 * iv}, {"op": "remove", "key": "k71"}, {"op": "set", "key": "k72", "val": 33, "delay": 7 * iv}]
+    calls += [{"op": "tick"}] * 8
+    for i, k in enumerate(ZERO):
+        calls.append({"op": "set", "key": k, "val": 20 + i, "delay": (1 + i) * iv})
+    calls += [{"op": "tick"}, {"op": "tick"}, {"op": "drain"}, {"op": "tick"}]
+    return [{"kind": "wheel", "interval": iv, "slots": n, "calls": calls}]
+
+
+def _many_revolutions_fixed():
+    """more than 65535 revolutions on a 2-slot wheel: set and move with d = 131080*I and neighbours fire at tick
+    floor(d/I), not earlier; the ticks are issued as one burst and every callback comes with its tick offset"""
+    out = []
+    for iv in (1, 1000):
+        calls = [{"op": "tick"}] * (1 if iv == 1 else 0)
+        calls += [{"op": "set", "key": "k0", "val": 1, "delay": 131080 * iv}, {"op": "set", "key": "k1", "val": 2, "delay": 3 * iv},
+                  {"op": "set", "key": "k2", "val": 3, "delay": 5 * iv}, {"op": "move", "key": "k2", "delay": 131075 * iv},
+                  {"op": "set", "key": "k3", "val": 4, "delay": 65536 * 2 * iv}, {"op": "set", "key": "k4", "val": 5, "delay": (65536 * 2 + 1) * iv},
+                  {"op": "set", "key": "k70", "val": 6, "delay": 131081 * iv},
+                  {"op": "ticks", "n": 4}, {"op": "move", "key": "k1", "delay": 131072 * iv},
+                  {"op": "ticks", "n": 131090}, {"op": "tick"}]
+        out.append({"kind": "wheel", "interval": iv, "slots": 2, "calls": calls})
+    return out
+
+
 def _gated_drain(rng):
     """Drain with more pending tasks than drainWorkers while the drain function is held; ticks arrive meanwhile"""
     n = rng.choice([1, 2, 3, 4, 5, 10])
@@ -464,6 +500,7 @@ def generate(rng, tier, n):
         cases.append({"kind": "wheel", "interval": 0, "slots": 3, "calls": []})
         cases.append({"kind": "wheel", "interval": 1000, "slots": 0, "calls": []})
         cases.append({"kind": "wheel", "interval": -5, "slots": -1, "calls": []})
+    cases += _zero_keys_fixed() + _many_revolutions_fixed()
     while len(cases) < n:
         r = rng.random()
         if r < 0.025:
@@ -591,6 +628,8 @@ def encode(case, obs):
             return "XC (CRemove %s)" % _key(c["key"])
         if op == "tick":
             return "XC CTick"
+        if op == "ticks":
+            return None
         if op == "drain":
             return "XC CDrain"
         if op in GATES:
@@ -610,6 +649,12 @@ def encode(case, obs):
                     o = ol[i]
                     os_ += ["mkObs %s %s %s" % (cnat(o["err"]), _pairs(o["fired"]), _pairs(o["drained"])),
                             "mkObs %s [] []" % cnat(o.get("err2", 0))]
+                continue
+            if c["op"] == "ticks":      # many ticks as one call: the callbacks come with their tick offset
+                seen = (ol[i].get("fired_at") or []) if i < len(ol) else []
+                calls.append("XTicks %s %s" % (cnat(c["n"]), clist(["(%s, (%s, %s))" % (cnat(t[0]), cnat(int(t[1][1:])), cnat(t[2])) for t in seen])))
+                if i < len(ol):
+                    os_.append("mkObs %s [] %s" % (cnat(ol[i]["err"]), _pairs(ol[i]["drained"])))
                 continue
             calls.append(term(c))
             if i < len(ol):
